@@ -15,6 +15,8 @@ import (
 // reported as died=true and the child is restarted for the next request, so a
 // crash of the code under test is attributed to the single case that caused it.
 type Worker struct {
+	// Bin is the program to run (default: this program, os.Args[0]).
+	Bin    string
 	Args   []string
 	Env    []string
 	cmd    *exec.Cmd
@@ -28,7 +30,11 @@ type Worker struct {
 }
 
 func (w *Worker) start() {
-	w.cmd = exec.Command(os.Args[0], w.Args...)
+	bin := w.Bin
+	if bin == "" {
+		bin = os.Args[0]
+	}
+	w.cmd = exec.Command(bin, w.Args...)
 	w.cmd.Stderr = nil // fatal error traces of the child are not interesting beyond "it died"
 	w.cmd.Env = append(os.Environ(), w.Env...)
 	stdin, _ := w.cmd.StdinPipe()
